@@ -110,6 +110,10 @@ fn programs(body_len: u32, main_len: u32) -> Gen<Vec<S>> {
     })
 }
 
+pub fn programs_for_c06(thorough: bool) -> Gen<Vec<S>> {
+    if thorough { programs(2, 3) } else { programs(2, 2) }
+}
+
 pub fn spaces(tier: Tier) -> Vec<Box<dyn Space>> {
     let t = tier == Tier::Thorough;
     let mut v: Vec<Box<dyn Space>> = Vec::new();
